@@ -89,6 +89,10 @@ def run(R):
             out = R.path("codec", "dec-%s-%d.ndjson" % (variant, i))
             R.run([exe, "dec", tp, "200a", "4", out], ok_codes=(0, 70))
             files.append(out)
+            if i < 3:        # an ignore set that shares characters with the alphabets ('-' URL-safe, 'A' every alphabet and hex):
+                out = R.path("codec", "dec-ovl-%s-%d.ndjson" % (variant, i))         # alphabet characters are decoded, never skipped
+                R.run([exe, "dec", tp, "2d412f", "4", out], ok_codes=(0, 70))
+                files.append(out)
         out = R.path("codec", "enc-%s.ndjson" % variant)
         R.run([exe, "enc", "300" if R.tier == "thorough" else "70", str(R.seed), out], ok_codes=(0, 70))
         files.append(out)
